@@ -336,6 +336,7 @@ Step(e) ==
          /\ bad' = bad \cup Flag("C04", Get0(exitN, e.v) = 0, "a value was passed to OnExit twice")
                        \cup Flag("C04", e.v \notin refused, "a value whose Set returned false was passed to OnExit")
                        \cup Flag("C04", Get0(pendCb, e.g) \in {0, e.v}, "OnEvict/OnReject not followed by OnExit of the same value")
+                       \cup Flag("C15", ~closed, "a callback ran after Close had returned")
          /\ UNCHANGED <<tid, cfg, vkey, vcost, vttl, vtb, vte, accepted, refused, evictN, rejectN, getSnap, 
                  ended, delBefore, cand, waitCov, dead, owed, inClear, clearEver, closed, openCalls, 
                  getsN, dropsN, getsAll, raised, maxMax, keysSeen, begunN, runN, exitDue, settled, 
@@ -409,6 +410,8 @@ Step(e) ==
               \cup Flag("C15", lastEv # "ClearEnd" \/ clearEver \/
                                  (Len(e.storekeys) = 0 /\ Len(e.polkeys) = 0 /\ e.remaining = e.maxcost /\ Len(e.iter) = 0 /\ e.emn = 0),
                                "Clear left entries, accounting or expiry index behind")
+              \cup Flag("C15", lastEv # "ClearEnd" \/ clearEver \/ "estmax" \notin DOMAIN e \/ e.estmax = 0,
+                               "Clear did not reset the access-frequency estimates")
               \cup Flag("C15", lastEv # "ClearEnd" \/ clearEver \/ ~cfg.metrics \/
                                  (e.metrics.hits = 0 /\ e.metrics.misses = 0 /\ e.metrics.keysAdded = 0 /\ e.metrics.keysEvicted = 0
                                   /\ e.metrics.costAdded = 0 /\ e.metrics.costEvicted = 0 /\ e.metrics.setsDropped = 0
